@@ -300,7 +300,7 @@ theorem C04_gen_poolUnlockedAccesses : Generated.poolUnlockedAccesses = some JRV
 
 private def exReg : Registry :=
   { funcs := [("add", { sig := { names := ["a", "b"] }, body := fun _ => .ret (.int 3) }),
-              ("boom", { sig := { names := [], star := true }, body := fun _ => .raised "ValueError" "boom" false false })] }
+              ("boom", { sig := { names := [], star := true }, body := fun _ => .raised "ValueError" "boom" false false 1 })] }
 
 private def notif (m : String) (ps : List PyVal) : PyVal :=
   mkDict [("jsonrpc", .str "2.0"), ("method", .str m), ("params", .list ps)]
@@ -315,7 +315,7 @@ example : marshaledDispatch { cfg := {}, reg := exReg, pool := .accepting }
     = (.ok .empty, [.enqueue false (.str "boom") (.list []) 20, .enqueue false (.str "add") (.list []) 10]) := by
   decide +kernel
 
-example : marshaledDispatch { cfg := {}, custom := some (fun _ _ => .raised "KeyError" "'x'" false false) }
+example : marshaledDispatch { cfg := {}, custom := some (fun _ _ => .raised "KeyError" "'x'" false false 1) }
     (.parsed (notif "anything" []))
     = (.ok .empty, [.call .custom (.str "anything") (.list [])]) := by
   decide +kernel
